@@ -28,6 +28,8 @@ def run(repo, rep):
              'transfer syntaxes', 3)
     rep.rule('C11.Q3', 'accepted-context tables are written at one site, only for result 0, keyed by the reply\'s id looked up '
              'in the proposed list, bound to the reply\'s transfer syntax', 1)
+    rep.rule('C11.Q6', 'the accepted-context tables are per-association objects: contexts accepted in an earlier association '
+             'are not usable in a later one', 1)
     rep.rule('C11.Q4', 'get_scu binds the stored (context id, transfer syntax) and turns a missing entry into ClassNotSupportedError', 1)
 
     # ---------------------------------------------------------------- Q1
@@ -349,3 +351,9 @@ def run(repo, rep):
         probs.append('a missing entry is not reported as ClassNotSupportedError')
     rep.check(not probs, 'C11.Q4', 'asceprovider:AssociationRequester.get_scu:lookup', gs.loc(),
               'binds (id, syntax) of the accepted context; missing entry -> ClassNotSupportedError', '; '.join(sorted(set(probs))))
+
+    # ---------------------------------------------------------------- Q6: the tables belong to this association
+    from .c20 import per_instance_problems
+    p6 = per_instance_problems(repo, rq)
+    rep.check(not p6, 'C11.Q6', 'asceprovider:AssociationRequester:tables-per-association', rq.loc(),
+              'accepted-context tables are created per association', '; '.join(p6))
